@@ -71,7 +71,7 @@ class Worker:
 
 VALGRIND = ["valgrind", "-q", "--error-exitcode=88", "--exit-on-first-error=yes", "--undef-value-errors=yes", "--num-callers=25", "--max-stackframe=4000000"]
 
-def run_batch(exe, base_seed, nruns, time_limit, cfg="", nworkers=None, extra=None, on_result=None, wrapper=None):
+def run_batch(exe, base_seed, nruns, time_limit, cfg="", nworkers=None, extra=None, on_result=None, wrapper=None, keep=True):
     """Runs seeds base_seed .. base_seed+nruns-1 (as many as fit in time_limit) over a pool of in-process-looping workers.
     Returns (results, crashes). A dead worker is attributed to the seed in progress and restarted on its remaining seeds."""
     import selectors
@@ -101,7 +101,7 @@ def run_batch(exe, base_seed, nruns, time_limit, cfg="", nworkers=None, extra=No
                         r = json.loads(line[7:])
                     except Exception as e:
                         r = {"seed": wk.cur_seed, "verdict": "harness-output-garbled", "detail": line[:200], "cfg": "", "hash": "0", "stats": {}, "probes": {}, "ubsan": [], "sig": "", "nworlds": 0, "wall": 0}
-                    results.append(r)
+                    if keep: results.append(r)
                     if on_result: on_result(r)
                     wk.seed = wk.cur_seed + wk.step
                     wk.left -= 1
